@@ -18,6 +18,7 @@ import (
 
 	"github.com/ipfs/go-cid"
 	"github.com/ipld/go-ipld-prime"
+	"github.com/ipld/go-ipld-prime/codec"
 	"github.com/ipld/go-ipld-prime/codec/dagcbor"
 	"github.com/ipld/go-ipld-prime/codec/dagjson"
 	"github.com/ipld/go-ipld-prime/datamodel"
@@ -76,6 +77,8 @@ type envelopeParts struct {
 	payload    map[string]ipld.Node
 	rawPayload ipld.Node
 	extra      string
+	noncanon   bool       // the signature is computed over a NON-canonical encoding of the signed part, and that form is sent
+	signedBy   *principal // who signed last
 }
 
 func (e *envelopeParts) clone() *envelopeParts {
@@ -148,7 +151,54 @@ func (e *envelopeParts) signBy(p *principal) error {
 		return err
 	}
 	e.sig = basicnode.NewBytes(sig)
+	e.signedBy = p
+	e.noncanon = false // a fresh signature over the canonical form
 	return nil
+}
+
+// noncanonicalBytes: the envelope with the two entries of the signed part in the OTHER order (payload before header), the
+// signature being a genuine one over exactly those bytes. Every decoder verifies over the canonical encoding of what it
+// decoded, so this signature does not verify.
+func (e *envelopeParts) noncanonicalBytes(signer *principal) ([]byte, error) {
+	sp := e.sigPayload()
+	var keys []string
+	vals := map[string]ipld.Node{}
+	for it := sp.MapIterator(); !it.Done(); {
+		k, v, err := it.Next()
+		if err != nil {
+			return nil, err
+		}
+		ks, _ := k.AsString()
+		keys = append(keys, ks)
+		vals[ks] = v
+	}
+	sort.Sort(sort.Reverse(sort.StringSlice(keys)))
+	sort.SliceStable(keys, func(i, j int) bool { return len(keys[i]) > len(keys[j]) }) // longest first: the reverse of DAG-CBOR order
+	rev, err := qp.BuildMap(basicnode.Prototype.Any, int64(len(keys)), func(ma datamodel.MapAssembler) {
+		for _, k := range keys {
+			qp.MapEntry(ma, k, qp.Node(vals[k]))
+		}
+	})
+	if err != nil {
+		return nil, err
+	}
+	asIs := dagcbor.EncodeOptions{AllowLinks: true, MapSortMode: codec.MapSortMode_None}.Encode
+	spBytes, err := ipld.Encode(rev, asIs)
+	if err != nil {
+		return nil, err
+	}
+	sig, err := signer.priv.Sign(spBytes)
+	if err != nil {
+		return nil, err
+	}
+	env, err := qp.BuildList(basicnode.Prototype.Any, 2, func(la datamodel.ListAssembler) {
+		qp.ListEntry(la, qp.Bytes(sig))
+		qp.ListEntry(la, qp.Node(rev))
+	})
+	if err != nil {
+		return nil, err
+	}
+	return ipld.Encode(env, asIs)
 }
 
 func partsOf(sealed []byte, typ string) (*envelopeParts, error) {
@@ -332,7 +382,7 @@ func repsOf(c envCase) int {
 		case op.A == "pol" && op.B == "bad":
 			k = len(badPolicies)
 		case op.A == "pol" && (op.B == "oob" || op.B == "oobneg" || op.B == "u64"):
-			k = 5
+			k = 8
 		}
 		if k > n {
 			n = k
@@ -416,7 +466,14 @@ func (ew *envWorld) classValue(e *envelopeParts, f, c string) (ipld.Node, bool, 
 			} else if c == "u64" {
 				v = bigU64
 			}
-			switch ew.rot % 5 {
+			switch ew.rot % 8 {
+			case 5:
+				// an out-of-range integer inside a SELECTOR of the policy: slice bounds and indexes are policy integers too
+				return listOf(listOf(str("=="), str(map[string]string{"oob": ".l[0:9223372036854775807]", "oobneg": ".l[-9223372036854775808:]", "u64": ".l[0:18446744073709551615]"}[c]), basicnode.NewInt(1))), true, nil
+			case 6:
+				return listOf(listOf(str("any"), str(map[string]string{"oob": ".l[9223372036854775807]?", "oobneg": ".l[-9223372036854775808]?", "u64": ".l[9007199254740992]?"}[c]), listOf(str("=="), str("."), basicnode.NewInt(1)))), true, nil
+			case 7:
+				return listOf(listOf(str("like"), str(map[string]string{"oob": ".s[:9007199254740992]", "oobneg": ".s[-9007199254740992:]", "u64": ".s[9223372036854775807:]?"}[c]), str("a*"))), true, nil
 			case 1:
 				return listOf(listOf(str("=="), str(".x"), listOf(basicnode.NewInt(1), v))), true, nil
 			case 2:
@@ -564,6 +621,8 @@ func (ew *envWorld) apply(e *envelopeParts, op envOp) error {
 			e.sig = basicnode.NewBytes(old[:len(old)/2])
 		case "string":
 			e.sig = basicnode.NewString(string(old))
+		case "noncanon":
+			e.noncanon = true
 		case "zeros":
 			e.sig = basicnode.NewBytes(make([]byte, 64))
 		case "dersmall":
@@ -825,6 +884,19 @@ func envelopeReplay(prop string) replayFn {
 			if jerr != nil {
 				jsonBytes = nil
 			}
+			if e.noncanon && e.outer == "list2" {
+				signer := e.signedBy
+				if signer == nil {
+					signer = ew.H
+				}
+				if cborBytes, err = e.noncanonicalBytes(signer); err != nil {
+					return fmt.Errorf("encoding case %s: %w", raw, err)
+				}
+				if node, err = ipld.Decode(cborBytes, dagcbor.Decode); err != nil {
+					return fmt.Errorf("case %s: %w", raw, err)
+				}
+				jsonBytes = nil // (DAG-JSON has its own byte form; the class is about the DAG-CBOR bytes that were signed)
+			}
 			rep.Evaluations++
 			relevant := c.C06ok
 			if prop == "C10" {
@@ -900,6 +972,7 @@ func envelopeReplay(prop string) replayFn {
 		// signature are replayed with an honest issuer of every algorithm did.Generate* offers
 		if prop == "C06" && sameAlg {
 			swept := []string{}
+			sweepSeconds := map[string]float64{}
 			for _, alg := range []string{"ed25519", "secp256k1", "p256", "p384", "p521", "rsa"} {
 				if alg == ew.H.alg {
 					continue
@@ -909,13 +982,24 @@ func envelopeReplay(prop string) replayFn {
 					return err
 				}
 				swept = append(swept, alg)
+				tSweep := time.Now()
+				// quick tier: the algorithms with slow signatures (P-384, P-521, RSA) replay every fourth behaviour (which ones
+				// depends on the seed); the thorough tier replays all of them
+				stride := 1
+				if getenv("VERIF_TIER_RUN") != "thorough" && (alg == "p384" || alg == "p521" || alg == "rsa") {
+					stride = 4
+				}
 				for i, raw := range sigCases {
+					if (i+int(envSeed()))%stride != 0 {
+						continue
+					}
 					if err := runCase(ew2, raw, sigParsed[i]); err != nil {
 						return err
 					}
 				}
+				sweepSeconds[alg] = time.Since(tSweep).Seconds()
 			}
-			rep.Extra["signature_cases_swept_over_issuer_algorithms"] = map[string]any{"algorithms": swept, "cases": len(sigCases)}
+			rep.Extra["signature_cases_swept_over_issuer_algorithms"] = map[string]any{"algorithms": swept, "cases": len(sigCases), "seconds": sweepSeconds}
 		}
 		return nil
 	}
